@@ -66,6 +66,10 @@ class Track(object):
         attached to the Track, but the note turns out not to be within the
         range of the Instrument.
         """
+        if isinstance(note, list):
+            # The notes that are checked are the notes that are placed: a
+            # list is voiced by the container, not read name by name
+            note = NoteContainer(note)
         if self.instrument != None and note is not None:
             if not self.instrument.can_play_notes(note):
                 raise InstrumentRangeError(
